@@ -170,6 +170,15 @@ class Check:
             specs.append({"name": f"gen-{sd}", "src": ["gen", {"seed": sd}], "policy": pols[s % 4], "seed": sd,
                           "episodes": 3, "steps": 48 if q else 96, "max_len": 24 if s % 2 else None,
                           "mid_reset_at": 9 if s % 3 == 0 else None})
+        # the defender acts LAST and on the very component a scripted agent used in its last turn (two actors on one component in one step)
+        for s in range(32 if q else 128):
+            sd = seed * 1000 + 600 + s
+            specs.append({"name": f"gen-collide-{sd}", "src": ["gen", {"seed": sd, "knobs": {"defender_position": "last"}}], "policy": "collide" if s % 4 else "disrupt",
+                          "seed": sd, "episodes": 2, "steps": 64 if q else 128, "max_len": None})
+        for i in range(6 if q else 24):  # shipped UC2 (scripted agents that succeed) + a defender that can do everything, colliding with them
+            specs.append({"name": f"uc2-fullmap-{i}", "src": ["fullmap", {"file": "data_manipulation.yaml", "seed": seed * 10 + i}],
+                          "policy": ["collide", "collide", "disrupt", "power", "nic", "adversarial"][i % 6], "seed": seed * 100 + 40 + i, "episodes": 2,
+                          "steps": 100 if q else 128, "max_len": None})
         return specs
 
     def run_case(self, spec):
